@@ -21,7 +21,18 @@ CHECKS = {
 NOT_YET = {}
 
 
+def load_entries():
+    d = os.path.join(VERIF, "harness", "manifest.d")
+    if os.path.isdir(d):
+        for f in sorted(os.listdir(d)):
+            if f.endswith(".json"):
+                e = json.load(open(os.path.join(d, f)))
+                CHECKS[e["property_id"]] = dict(category=e.get("category", "proof"), text=e["text"], design_ref=e.get("design_ref", "DESIGN.md section 3 " + e["property_id"]),
+                                                note=e["note"], technique=e["technique"])
+
+
 def main():
+    load_entries()
     props = [json.loads(l)["id"] for l in open(os.path.join(VERIF, "properties.jsonl"))]
     checks = []
     for p in props:
